@@ -438,6 +438,12 @@ class InProtocolBase(ProtocolMixin):
         if self.validator is self.SOFT_VALIDATION and not (
                                         cls.validate_string(cls, value)):
             raise ValidationError(value)
+
+        if value not in cls.__values__:
+            # getattr() would raise AttributeError, or worse, return a class
+            # attribute that's not a member of the enumeration
+            raise ValidationError(value)
+
         return getattr(cls, value)
 
     def model_base_from_bytes(self, cls, value):
